@@ -233,6 +233,9 @@ func (e *Engine) verifyFunction(fn *ssa.Function, fc *FuncContract) (c *Ctx) {
 				if _, ok := exitsSeen[ex]; !ok {
 					exitsSeen[ex] = err
 				}
+				if ex.Scoped {
+					continue
+				}
 				// the body mentions locals that are not live at this return: then the guard (over parameters and
 				// results only) must be false here, so that the clause says something about every return
 				if ex.Expr.Op == "binary" && ex.Expr.Name == "==>" {
